@@ -121,6 +121,10 @@ def build_args(cfg, call, S):
             return lambda l: l < call["k"]
         if f == "eq":
             return lambda l: l == call["k"]
+        if f == "ne":
+            return lambda l: l != call["k"]
+        if f == "gap":
+            return lambda l: (l <= call["a"]) | (l == call["b"])
         return lambda l: (l > call["a"]) & (l < call["b"])
 
     def value_fn():
